@@ -134,20 +134,31 @@ def expert_case(draw, nmax=30, kinds=("recipe", "recipe", "svd", "scaled", "arro
         s["trans"] = "T"       # complex CONJ is the listed finding D3c: keep a small share to confirm it, explore behind it
     if s["fact"] == "FACTORED":
         s["fact1"] = draw(st.sampled_from(["DOFACT", "EQUILIBRATE"])); s["trans1"] = draw(st.sampled_from(["N", "T"]))
-    s["u"] = draw(st.sampled_from([1.0, 1.0, 0.5, 0.1]))
-    nrhs = draw(st.sampled_from([1, 1, 2, 3, 0])); s["nrhs"] = nrhs
+    s["u"] = draw(st.sampled_from([1.0, 1.0, 0.5, 0.1, 0.01]))
+    nrhs = draw(st.sampled_from([1, 1, 2, 3, 0, 6, 9])); s["nrhs"] = nrhs
+    # reducible system with a right-hand side that vanishes on the leading block: the solution has exact zeros followed by
+    # nonzeros (exercises data-dependent skips in the sparse kernels used by the refinement)
+    blockzero = kind != "svd" and n >= 4 and draw(st.integers(0, 4)) == 0
+    kcut = draw(st.integers(1, n - 1)) if blockzero else 0
+    if blockzero:
+        entries = [(i, j, a, b) for (i, j, a, b) in entries if (i < kcut) == (j < kcut)]
+        have = set((i, j) for (i, j, a, b) in entries)
+        entries += [(i, i, 2.0 + 0.25 * (i % 3), 0.0) for i in range(n) if (i, i) not in have]
     s["ldb"] = n + draw(st.sampled_from([0, 0, 2])); s["ldx"] = n + draw(st.sampled_from([0, 0, 1]))
     rs = np.random.default_rng(fseed ^ 0x9e3779b9)
     b = []
-    for _ in range(n * nrhs):
+    for t in range(n * nrhs):
         re_ = float(rs.uniform(-2, 2)); im_ = float(rs.uniform(-2, 2)) if cplx else 0.0
         if single: re_, im_ = float(np.float32(re_)), float(np.float32(im_))
+        if blockzero and (t % n) < kcut: re_, im_ = 0.0, 0.0
         b.append((re_, im_))
-    return {"set": s, "entries": entries, "b": b, "family": rec["family"], "kind": kind, "scal": scal}
+    return {"set": s, "entries": entries, "b": b, "family": rec["family"], "kind": kind, "scal": scal, "blockzero": blockzero}
 
 
 def expert_classes(case, v):
     labs = std_classes(case, v); s = case["set"]; f = v.get("f", {})
+    if case.get("blockzero"): labs.append("solution_with_exact_zeros")
+    if s.get("nrhs", 1) >= 6: labs.append("nrhs>=6")
     labs += ["fact=" + s["fact"], "trans=" + s["trans"], "kind=" + case.get("kind", "?"), "scal=" + case.get("scal", "none"),
              "equed=%d" % int(f.get("equed", -1)), "cell=%s/%s/%s/%s" % (s["trans"], s["stype"], s["fact"], s["prec"])]
     if f.get("wellcond", 0): labs.append("wellcond")
